@@ -1156,6 +1156,21 @@ Model gen_model(Rng& rng, const GenCfg& cfg)
         decl.name = "D0";
         decl.text = "dynamic D0(const int dp0, const int dp1);";
         m.gdecls.push_back(decl);
+        // some edge of an ordinary template spawns it
+        {
+            std::vector<MEdge*> cands;
+            for (auto& t : m.templs)
+                for (auto& e : t.edges)
+                    if (e.assign.present())
+                        cands.push_back(&e);
+            if (!cands.empty() && rng.chance(0.7)) {
+                MEdge* e = cands[rng.below((uint32_t)cands.size())];
+                int tg = g.tag();
+                e->assign.text += ", spawn D0(" + std::to_string(tg) + ", 1)";
+                e->assign.tags.push_back(tg);
+                std::sort(e->assign.tags.begin(), e->assign.tags.end());
+            }
+        }
         m.templs.insert(m.templs.begin() + rng.below((uint32_t)m.templs.size()), d);
     }
     g.gen_system(m, gsc);
